@@ -47,3 +47,14 @@ CHECKS["C10"] = dict(
          ".else/.endif inserted at every position must be rejected without an output file when the reference calls it malformed.",
     note="Trusts engine/ref/cond.py (C precedence); two chained comparisons are never posed without parentheses; undefined names and non-numeric "
          "defines occur only inside defined().")
+
+CHECKS["C11"] = dict(
+    level="model_checking", design_ref="DESIGN.md 4/C11",
+    technique="exhaustive enumeration of definition/use event sequences over global regions and .scope/.func blocks, .set histories, exports and "
+              "symbol-pool boundary programs on the real assembler against a scoping reference model",
+    text="Every sequence of up to 4 (thorough 5) definition/use events over the names {g, l}, distributed in every way over a global prefix, two "
+         "(three) .scope/.func blocks and the global regions between and after them, is assembled and every `.dc32 name` is compared with the "
+         "definition the scoping rules select (duplicates and undefined uses must be rejected); all .set histories of length <= 3 with uses in "
+         "between; exports of global/local/undefined names checked in the ELF symbol table; 1-5000 labels with 6/30/254-character names "
+         "(beyond one 32 KiB symbol pool), each referenced and exported, checked in the image, the ELF symbol table and -dump_symbols.",
+    note="Trusts the scoping model in checks/C11.py and the ELF decoder; a use of a .set symbol before its first assignment is not posed.")
